@@ -379,6 +379,10 @@ class Empt:
         if isinstance(s, (ast.Continue, ast.Break)) and self._loops:
             self._loops[-1]["continue" if isinstance(s, ast.Continue) else "break"].append(env)
             return None
+        if isinstance(s, ast.Match):
+            from .stmts import _desugar_match
+
+            return self.stmt(_desugar_match(s), env)
         raise Unsupported("statement %s at line %d in emptiness analysis" % (type(s).__name__, s.lineno))
 
     def run(self, params: Dict[str, Any] = None):
